@@ -1,0 +1,22 @@
+//go:build verif
+
+package join
+
+// Contracts for the deductive verifier in /verif (comment-only file; see /verif/DESIGN.md).
+
+//@ type joinError invariant len(self.errs) >= 1 && (forall i int :: 0 <= i && i < len(self.errs) ==> self.errs[i] != nil)
+
+//@ method (*joinError).Unwrap
+//@   props C13 C07
+//@   ensures result == self.errs
+
+//@ spec func countNonNil(s []error, n int) int
+//@ unfold countNonNil(s, n) = n <= 0 ? 0 : countNonNil(s, n - 1) + (s[n - 1] != nil ? 1 : 0)
+
+//@ func Join
+//@   props C13 C10 C05
+//@   ensures countNonNil(errs, len(errs)) == 0 ==> result == nil
+//@   ensures countNonNil(errs, len(errs)) > 0 ==> typeis(result, *joinError) && len(result.(*joinError).errs) == countNonNil(errs, len(errs))
+//@   loop 1: invariant n == countNonNil(errs, $n) && n >= 0
+//@   loop 2: invariant len(e.errs) == countNonNil(errs, $n)
+//@           invariant forall j int :: 0 <= j && j < len(e.errs) ==> e.errs[j] != nil
